@@ -47,61 +47,61 @@ theorem names_merge_exact (env : Env) (sel : TypeDef → List String) :
     rw [step]
     exact this
 
-theorem extend_scalar_exact (env : Env) (exts : List TypeDef) (t : TypeD) (hk : t.kind = .scalar)
-    (hkinds : ∀ e ∈ exts, e.name = t.name → e.kind = .scalar) : extendType env exts t = .ok t := by
+theorem extend_scalar_exact (env envX : Env) (hide : Option String) (exts : List TypeDef) (t : TypeD) (hk : t.kind = .scalar)
+    (hkinds : ∀ e ∈ exts, e.name = t.name → e.kind = .scalar) : extendTypeX env envX hide exts t = .ok t := by
   have hmine := kinds_ok exts t .scalar hk hkinds
-  unfold extendType
+  unfold extendTypeX
   simp only [hmine, failIf, Bool.false_eq_true, if_false, hk]
   rfl
 
-theorem extend_interface_exact (env : Env) (exts : List TypeDef) (t : TypeD) (hk : t.kind = .interface)
+theorem extend_interface_exact (env envX : Env) (hide : Option String) (exts : List TypeDef) (t : TypeD) (hk : t.kind = .interface)
     (hkinds : ∀ e ∈ exts, e.name = t.name → e.kind = .interface) (news : TypeDef → List FieldD)
-    (hb : ∀ e ∈ exts.filter (·.name == t.name), e.fields.mapM (buildField env) = .ok (news e))
+    (hb : ∀ e ∈ exts.filter (·.name == t.name), e.fields.mapM (buildFieldX env envX hide) = .ok (news e))
     (hn : ((t.fields ++ (exts.filter (·.name == t.name)).flatMap news).map (·.name)).Nodup) :
-    extendType env exts t = .ok { t with fields := t.fields ++ (exts.filter (·.name == t.name)).flatMap news } := by
+    extendTypeX env envX hide exts t = .ok { t with fields := t.fields ++ (exts.filter (·.name == t.name)).flatMap news } := by
   have hmine := kinds_ok exts t .interface hk hkinds
-  have := extension_merge_exact (.lib .ext) (buildField env) (·.name) (·.fields) (exts.filter (·.name == t.name)) t.fields news hb hn
-  unfold extendType
+  have := extension_merge_exact (.lib .ext) (buildFieldX env envX hide) (·.name) (·.fields) (exts.filter (·.name == t.name)) t.fields news hb hn
+  unfold extendTypeX
   simp only [hmine, failIf, Bool.false_eq_true, if_false, hk]
   rw [this]
   rfl
 
-theorem extend_input_exact (env : Env) (exts : List TypeDef) (t : TypeD) (hk : t.kind = .input)
+theorem extend_input_exact (env envX : Env) (hide : Option String) (exts : List TypeDef) (t : TypeD) (hk : t.kind = .input)
     (hkinds : ∀ e ∈ exts, e.name = t.name → e.kind = .input) (news : TypeDef → List ArgD)
-    (hb : ∀ e ∈ exts.filter (·.name == t.name), e.inputFields.mapM (buildArgument env) = .ok (news e))
+    (hb : ∀ e ∈ exts.filter (·.name == t.name), e.inputFields.mapM (buildArgumentX env envX hide) = .ok (news e))
     (hn : ((t.inputFields ++ (exts.filter (·.name == t.name)).flatMap news).map (·.name)).Nodup) :
-    extendType env exts t = .ok { t with inputFields := t.inputFields ++ (exts.filter (·.name == t.name)).flatMap news } := by
+    extendTypeX env envX hide exts t = .ok { t with inputFields := t.inputFields ++ (exts.filter (·.name == t.name)).flatMap news } := by
   have hmine := kinds_ok exts t .input hk hkinds
-  have := extension_merge_exact (.lib .ext) (buildArgument env) (·.name) (·.inputFields) (exts.filter (·.name == t.name)) t.inputFields news hb hn
-  unfold extendType
+  have := extension_merge_exact (.lib .ext) (buildArgumentX env envX hide) (·.name) (·.inputFields) (exts.filter (·.name == t.name)) t.inputFields news hb hn
+  unfold extendTypeX
   simp only [hmine, failIf, Bool.false_eq_true, if_false, hk]
   rw [this]
   rfl
 
-theorem extend_union_exact (env : Env) (exts : List TypeDef) (t : TypeD) (hk : t.kind = .union)
+theorem extend_union_exact (env envX : Env) (hide : Option String) (exts : List TypeDef) (t : TypeD) (hk : t.kind = .union)
     (hkinds : ∀ e ∈ exts, e.name = t.name → e.kind = .union)
     (hb : ∀ e ∈ exts.filter (·.name == t.name), checkNames env e.members = .ok ())
     (hn : (t.members ++ (exts.filter (·.name == t.name)).flatMap (·.members)).Nodup) :
-    extendType env exts t = .ok { t with members := t.members ++ (exts.filter (·.name == t.name)).flatMap (·.members) } := by
+    extendTypeX env envX hide exts t = .ok { t with members := t.members ++ (exts.filter (·.name == t.name)).flatMap (·.members) } := by
   have hmine := kinds_ok exts t .union hk hkinds
   have := names_merge_exact env (·.members) (exts.filter (·.name == t.name)) t.members hb hn
-  unfold extendType
+  unfold extendTypeX
   simp only [hmine, failIf, Bool.false_eq_true, if_false, hk]
   rw [this]
   rfl
 
-theorem extend_object_exact (env : Env) (exts : List TypeDef) (t : TypeD) (hk : t.kind = .object)
+theorem extend_object_exact (env envX : Env) (hide : Option String) (exts : List TypeDef) (t : TypeD) (hk : t.kind = .object)
     (hkinds : ∀ e ∈ exts, e.name = t.name → e.kind = .object) (news : TypeDef → List FieldD)
-    (hb : ∀ e ∈ exts.filter (·.name == t.name), e.fields.mapM (buildField env) = .ok (news e))
+    (hb : ∀ e ∈ exts.filter (·.name == t.name), e.fields.mapM (buildFieldX env envX hide) = .ok (news e))
     (hn : ((t.fields ++ (exts.filter (·.name == t.name)).flatMap news).map (·.name)).Nodup)
     (hbi : ∀ e ∈ exts.filter (·.name == t.name), checkNames env e.interfaces = .ok ())
     (hni : (t.interfaces ++ (exts.filter (·.name == t.name)).flatMap (·.interfaces)).Nodup) :
-    extendType env exts t = .ok { t with fields := t.fields ++ (exts.filter (·.name == t.name)).flatMap news,
-                                         interfaces := t.interfaces ++ (exts.filter (·.name == t.name)).flatMap (·.interfaces) } := by
+    extendTypeX env envX hide exts t = .ok { t with fields := t.fields ++ (exts.filter (·.name == t.name)).flatMap news,
+                                                    interfaces := t.interfaces ++ (exts.filter (·.name == t.name)).flatMap (·.interfaces) } := by
   have hmine := kinds_ok exts t .object hk hkinds
-  have h1 := extension_merge_exact (.lib .ext) (buildField env) (·.name) (·.fields) (exts.filter (·.name == t.name)) t.fields news hb hn
+  have h1 := extension_merge_exact (.lib .ext) (buildFieldX env envX hide) (·.name) (·.fields) (exts.filter (·.name == t.name)) t.fields news hb hn
   have h2 := names_merge_exact env (·.interfaces) (exts.filter (·.name == t.name)) t.interfaces hbi hni
-  unfold extendType
+  unfold extendTypeX
   simp only [hmine, failIf, Bool.false_eq_true, if_false, hk]
   rw [h1, h2]
   rfl
@@ -208,16 +208,162 @@ theorem mergeDef_spec (X : List TypeDef) (t : TypeDef) :
     (mergeDef X t).inputFields = t.inputFields ++ (mineOf X t.name).flatMap (·.inputFields) :=
   foldl_mstep (mineOf X t.name) t
 
-/-! ### the link: extending a built type = building the merged definition -/
+/-! ### the link: the extension step accepts what the merged definition declares, and the extended type IS the
+built merged definition (fix C14-T15: defaults are evaluated in the extended types) -/
 
 theorem ok_inj {α} {a b : α} (h : (Except.ok a : R α) = .ok b) : a = b := by cases h; rfl
 
-theorem link_interface (env : Env) (X : List TypeDef) (t : TypeDef) (bt r : TypeD) (hkk : t.kind = .interface)
-    (hb : buildTypeDef env t = .ok bt) (hm : buildTypeDef env (mergeDef X t) = .ok r)
+theorem mergeExt_eq (X : List TypeDef) (t : TypeDef) : mergeExt X t = mergeDef X t := rfl
+
+/-- by name, the extended types are the merged definitions -/
+theorem extended_eq (B X : List TypeDef) : (Env.of B).extended X = Env.of (B.map (mergeDef X)) := by
+  have hf : (fun n => (B.find? (·.name == n)).map (mergeExt X)) = fun n => (B.map (mergeDef X)).find? (·.name == n) := by
+    funext n
+    rw [List.find?_map]
+    have : ((fun x : TypeDef => x.name == n) ∘ mergeDef X) = fun x : TypeDef => x.name == n := by
+      funext x; simp [Function.comp, (mergeDef_spec X x).2.1]
+    rw [this]; rfl
+  simp only [Env.extended, Env.of, hf]
+
+theorem extended_resolves (env : Env) (X : List TypeDef) (n : String) : (env.extended X).resolves n = env.resolves n := by
+  simp [Env.resolves, Env.extended]
+
+theorem mapM_of_ok {α β} (f g : α → R β) (hfg : ∀ x r, f x = .ok r → g x = .ok r) : ∀ (l : List α) (rs : List β),
+    l.mapM f = .ok rs → l.mapM g = .ok rs := by
+  intro l
+  induction l with
+  | nil => intro rs h; exact h
+  | cons x xs ih =>
+    intro rs h
+    rw [List.mapM_cons] at h ⊢
+    obtain ⟨b, hb, h2⟩ := bind_ok _ _ _ h
+    obtain ⟨bs, hbs, h3⟩ := bind_ok _ _ _ h2
+    rw [hfg x b hb, ih bs hbs]; exact h3
+
+theorem defaultValueX_of_ok (eB eX : Env) (l : Lit) (ty : Ty) (v : J) (h : defaultValue eX l ty = .ok v) :
+    defaultValueX eB eX none l ty = .ok v := by
+  unfold defaultValueX; simp [needsHidden, h]
+
+/-- a default literal that is a value in the extended types has THAT value (whatever it is in the un-extended ones) -/
+theorem buildArgumentX_of_ok (eB eX : Env) (hres : ∀ n, eX.resolves n = eB.resolves n) (a : InputValDef) (r : ArgD)
+    (h : buildArgument eX a = .ok r) : buildArgumentX eB eX none a = .ok r := by
+  unfold buildArgument at h
+  unfold buildArgumentX
+  have hc : checkRef eX a.type = checkRef eB a.type := by simp [checkRef, hres]
+  rw [hc] at h
+  obtain ⟨u, hu, h2⟩ := bind_ok _ _ _ h
+  rw [hu]
+  cases hd : a.default with
+  | none => simp only [hd] at h2; exact h2
+  | some l =>
+    simp only [hd] at h2
+    obtain ⟨v, hv, h3⟩ := bind_ok _ _ _ h2
+    show (defaultValueX eB eX none l a.type >>= _) = _
+    rw [defaultValueX_of_ok eB eX l a.type v hv]; exact h3
+
+theorem buildFieldX_of_ok (eB eX : Env) (hres : ∀ n, eX.resolves n = eB.resolves n) (f : FieldDef) (r : FieldD)
+    (h : buildField eX f = .ok r) : buildFieldX eB eX none f = .ok r := by
+  unfold buildField at h
+  unfold buildFieldX
+  have hc : checkRef eX f.type = checkRef eB f.type := by simp [checkRef, hres]
+  rw [hc] at h
+  obtain ⟨u, hu, h2⟩ := bind_ok _ _ _ h
+  obtain ⟨as, has, h3⟩ := bind_ok _ _ _ h2
+  rw [hu]
+  show (f.args.mapM (buildArgumentX eB eX none) >>= _) = _
+  rw [mapM_of_ok _ _ (buildArgumentX_of_ok eB eX hres) _ _ has]; exact h3
+
+theorem checkNames_congr_all (eB eX : Env) (hres : ∀ n, eX.resolves n = eB.resolves n) (ns : List String) :
+    checkNames eX ns = checkNames eB ns := by
+  have : eX.resolves = eB.resolves := funext hres
+  simp [checkNames, this]
+
+theorem buildTypeDefX_of_ok (eB eX : Env) (hres : ∀ n, eX.resolves n = eB.resolves n) (d : TypeDef) (r : TypeD)
+    (h : buildTypeDef eX d = .ok r) : buildTypeDefX eB eX none d = .ok r := by
+  unfold buildTypeDef at h
+  unfold buildTypeDefX
+  cases hk : d.kind <;> simp only [hk] at h ⊢
+  · exact h
+  · obtain ⟨fs, hfs, h1⟩ := bind_ok _ _ _ h
+    rw [mapM_of_ok _ _ (buildFieldX_of_ok eB eX hres) _ _ hfs, ← checkNames_congr_all eB eX hres]; exact h1
+  · obtain ⟨fs, hfs, h1⟩ := bind_ok _ _ _ h
+    rw [mapM_of_ok _ _ (buildFieldX_of_ok eB eX hres) _ _ hfs]; exact h1
+  · rw [← checkNames_congr_all eB eX hres]; exact h
+  · exact h
+  · obtain ⟨fs, hfs, h1⟩ := bind_ok _ _ _ h
+    rw [mapM_of_ok _ _ (buildArgumentX_of_ok eB eX hres) _ _ hfs]; exact h1
+
+theorem buildDirectiveX_of_ok (eB eX : Env) (hres : ∀ n, eX.resolves n = eB.resolves n) (d : DirDef) (r : DirectiveD)
+    (h : buildDirective eX d = .ok r) : buildDirectiveX eB eX d = .ok r := by
+  unfold buildDirective at h
+  unfold buildDirectiveX
+  obtain ⟨fs, hfs, h1⟩ := bind_ok _ _ _ h
+  rw [mapM_of_ok _ _ (buildArgumentX_of_ok eB eX hres) _ _ hfs]; exact h1
+
+/-! names of built members -/
+
+theorem mapM_names {α β γ} (f : α → R β) (na : α → γ) (nb : β → γ) (hf : ∀ x y, f x = .ok y → nb y = na x) :
+    ∀ (l : List α) (r : List β), l.mapM f = .ok r → r.map nb = l.map na := by
+  intro l
+  induction l with
+  | nil => intro r h; simp [pure, Except.pure] at h; subst h; rfl
+  | cons x xs ih =>
+    intro r h
+    rw [List.mapM_cons] at h
+    obtain ⟨b, hb, h2⟩ := bind_ok _ _ _ h
+    obtain ⟨bs, hbs, h3⟩ := bind_ok _ _ _ h2
+    have := ok_inj h3; subst this
+    simp [hf _ _ hb, ih bs hbs]
+
+theorem buildArgument_name (env : Env) (a : InputValDef) (r : ArgD) (h : buildArgument env a = .ok r) : r.name = a.name := by
+  unfold buildArgument at h
+  obtain ⟨_, _, h2⟩ := bind_ok _ _ _ h
+  cases hd : a.default with
+  | none => simp only [hd] at h2; have := ok_inj h2; subst this; rfl
+  | some l => simp only [hd] at h2; obtain ⟨_, _, h3⟩ := bind_ok _ _ _ h2; have := ok_inj h3; subst this; rfl
+
+theorem buildArgumentX_name (eB eX : Env) (hide : Option String) (a : InputValDef) (r : ArgD) (h : buildArgumentX eB eX hide a = .ok r) : r.name = a.name := by
+  unfold buildArgumentX at h
+  obtain ⟨_, _, h2⟩ := bind_ok _ _ _ h
+  cases hd : a.default with
+  | none => simp only [hd] at h2; have := ok_inj h2; subst this; rfl
+  | some l => simp only [hd] at h2; obtain ⟨_, _, h3⟩ := bind_ok _ _ _ h2; have := ok_inj h3; subst this; rfl
+
+theorem buildField_name (env : Env) (f : FieldDef) (r : FieldD) (h : buildField env f = .ok r) : r.name = f.name := by
+  unfold buildField at h
+  obtain ⟨_, _, h2⟩ := bind_ok _ _ _ h
+  obtain ⟨_, _, h3⟩ := bind_ok _ _ _ h2
+  obtain ⟨_, _, h4⟩ := bind_ok _ _ _ h3
+  have := ok_inj h4; subst this; rfl
+
+theorem buildFieldX_name (eB eX : Env) (hide : Option String) (f : FieldDef) (r : FieldD) (h : buildFieldX eB eX hide f = .ok r) : r.name = f.name := by
+  unfold buildFieldX at h
+  obtain ⟨_, _, h2⟩ := bind_ok _ _ _ h
+  obtain ⟨_, _, h3⟩ := bind_ok _ _ _ h2
+  obtain ⟨_, _, h4⟩ := bind_ok _ _ _ h3
+  have := ok_inj h4; subst this; rfl
+
+/-- the link for a member list built by `bf` in the definition and by `bfX` in the extension step -/
+theorem link_members {α β} (bf bfX : α → R β) (na : α → String) (nb : β → String)
+    (hbf : ∀ x y, bf x = .ok y → nb y = na x) (hbfX : ∀ x y, bfX x = .ok y → nb y = na x)
+    (sel : TypeDef → List α) (base : List α) (es : List TypeDef) (fs all : List β)
+    (hfs : base.mapM bf = .ok fs) (hall : (base ++ es.flatMap sel).mapM bfX = .ok all) (hn : (all.map nb).Nodup) :
+    (∀ e ∈ es, (sel e).mapM bfX = .ok (newsOf bfX sel e)) ∧ ((fs ++ es.flatMap (newsOf bfX sel)).map nb).Nodup := by
+  obtain ⟨r₁, r₂, h1, h2, h3⟩ := mapM_append_inv _ _ _ _ hall
+  obtain ⟨hnews, hflat⟩ := flatMap_mapM_inv bfX sel es r₂ h2
+  refine ⟨hnews, ?_⟩
+  have e1 := mapM_names bf na nb hbf _ _ hfs
+  have e2 := mapM_names bfX na nb hbfX _ _ h1
+  rw [h3, hflat, List.map_append, e2, ← e1, ← List.map_append] at hn
+  exact hn
+
+theorem link_interface (eB eX : Env) (hide : Option String) (X : List TypeDef) (t : TypeDef) (bt r : TypeD) (hkk : t.kind = .interface)
+    (hb : buildTypeDef eB t = .ok bt) (hm : buildTypeDefX eB eX hide (mergeDef X t) = .ok r)
     (hk : ∀ e ∈ X, e.name = t.name → e.kind = t.kind) (hn : (r.fields.map (·.name)).Nodup) :
-    extendType env X bt = .ok r := by
+    ∃ c, extendTypeX eB eX hide X bt = .ok c ∧ c.name = t.name ∧ c.kind = t.kind := by
   obtain ⟨s1, s2, s3, s4, s5, s6, s7, s8⟩ := mergeDef_spec X t
-  unfold buildTypeDef at hb hm
+  unfold buildTypeDef at hb
+  unfold buildTypeDefX at hm
   rw [s1] at hm
   simp only [hkk] at hb hm
   obtain ⟨fs, hfs, hb2⟩ := bind_ok _ _ _ hb
@@ -225,22 +371,19 @@ theorem link_interface (env : Env) (X : List TypeDef) (t : TypeDef) (bt r : Type
   have ebt := ok_inj hb2
   have er := ok_inj hm2
   rw [s4] at hfs'
-  obtain ⟨r₁, r₂, h1, h2, h3⟩ := mapM_append_inv _ _ _ _ hfs'
-  rw [hfs] at h1
-  have e1 := ok_inj h1
-  obtain ⟨hnews, hall⟩ := flatMap_mapM_inv (buildField env) (·.fields) (mineOf X t.name) r₂ h2
   subst ebt er
-  have := extend_interface_exact env X { kind := .interface, name := t.name, desc := t.desc, fields := fs } rfl
-    (fun e he hne => by rw [hk e he hne, hkk]) (newsOf (buildField env) (·.fields)) hnews
-    (by simp only [] at hn ⊢; rw [h3, ← e1, hall] at hn; exact hn)
-  rw [this, s2, s3, h3, ← e1, hall]
+  obtain ⟨hnews, hnd⟩ := link_members (buildField eB) (buildFieldX eB eX hide) (·.name) (·.name) (buildField_name eB) (buildFieldX_name eB eX hide)
+    (·.fields) t.fields (mineOf X t.name) fs fs' hfs hfs' hn
+  exact ⟨_, extend_interface_exact eB eX hide X { kind := .interface, name := t.name, desc := t.desc, fields := fs } rfl
+    (fun e he hne => by rw [hk e he hne, hkk]) (newsOf (buildFieldX eB eX hide) (·.fields)) hnews hnd, rfl, hkk.symm⟩
 
-theorem link_input (env : Env) (X : List TypeDef) (t : TypeDef) (bt r : TypeD) (hkk : t.kind = .input)
-    (hb : buildTypeDef env t = .ok bt) (hm : buildTypeDef env (mergeDef X t) = .ok r)
+theorem link_input (eB eX : Env) (hide : Option String) (X : List TypeDef) (t : TypeDef) (bt r : TypeD) (hkk : t.kind = .input)
+    (hb : buildTypeDef eB t = .ok bt) (hm : buildTypeDefX eB eX hide (mergeDef X t) = .ok r)
     (hk : ∀ e ∈ X, e.name = t.name → e.kind = t.kind) (hn : (r.inputFields.map (·.name)).Nodup) :
-    extendType env X bt = .ok r := by
+    ∃ c, extendTypeX eB eX hide X bt = .ok c ∧ c.name = t.name ∧ c.kind = t.kind := by
   obtain ⟨s1, s2, s3, s4, s5, s6, s7, s8⟩ := mergeDef_spec X t
-  unfold buildTypeDef at hb hm
+  unfold buildTypeDef at hb
+  unfold buildTypeDefX at hm
   rw [s1] at hm
   simp only [hkk] at hb hm
   obtain ⟨fs, hfs, hb2⟩ := bind_ok _ _ _ hb
@@ -248,22 +391,19 @@ theorem link_input (env : Env) (X : List TypeDef) (t : TypeDef) (bt r : TypeD) (
   have ebt := ok_inj hb2
   have er := ok_inj hm2
   rw [s8] at hfs'
-  obtain ⟨r₁, r₂, h1, h2, h3⟩ := mapM_append_inv _ _ _ _ hfs'
-  rw [hfs] at h1
-  have e1 := ok_inj h1
-  obtain ⟨hnews, hall⟩ := flatMap_mapM_inv (buildArgument env) (·.inputFields) (mineOf X t.name) r₂ h2
   subst ebt er
-  have := extend_input_exact env X { kind := .input, name := t.name, desc := t.desc, inputFields := fs } rfl
-    (fun e he hne => by rw [hk e he hne, hkk]) (newsOf (buildArgument env) (·.inputFields)) hnews
-    (by simp only [] at hn ⊢; rw [h3, ← e1, hall] at hn; exact hn)
-  rw [this, s2, s3, h3, ← e1, hall]
+  obtain ⟨hnews, hnd⟩ := link_members (buildArgument eB) (buildArgumentX eB eX hide) (·.name) (·.name) (buildArgument_name eB)
+    (buildArgumentX_name eB eX hide) (·.inputFields) t.inputFields (mineOf X t.name) fs fs' hfs hfs' hn
+  exact ⟨_, extend_input_exact eB eX hide X { kind := .input, name := t.name, desc := t.desc, inputFields := fs } rfl
+    (fun e he hne => by rw [hk e he hne, hkk]) (newsOf (buildArgumentX eB eX hide) (·.inputFields)) hnews hnd, rfl, hkk.symm⟩
 
-theorem link_enum (env : Env) (X : List TypeDef) (t : TypeDef) (bt r : TypeD) (hkk : t.kind = .enum)
-    (hb : buildTypeDef env t = .ok bt) (hm : buildTypeDef env (mergeDef X t) = .ok r)
+theorem link_enum (eB eX : Env) (hide : Option String) (X : List TypeDef) (t : TypeDef) (bt r : TypeD) (hkk : t.kind = .enum)
+    (hb : buildTypeDef eB t = .ok bt) (hm : buildTypeDefX eB eX hide (mergeDef X t) = .ok r)
     (hk : ∀ e ∈ X, e.name = t.name → e.kind = t.kind) (hn : (r.values.map (·.name)).Nodup) :
-    extendType env X bt = .ok r := by
+    ∃ c, extendTypeX eB eX hide X bt = .ok c ∧ c.name = t.name ∧ c.kind = t.kind := by
   obtain ⟨s1, s2, s3, s4, s5, s6, s7, s8⟩ := mergeDef_spec X t
-  unfold buildTypeDef at hb hm
+  unfold buildTypeDef at hb
+  unfold buildTypeDefX at hm
   rw [s1] at hm
   simp only [hkk] at hb hm
   obtain ⟨_, _, hb1⟩ := bind_ok _ _ _ hb
@@ -278,17 +418,17 @@ theorem link_enum (env : Env) (X : List TypeDef) (t : TypeDef) (bt r : TypeD) (h
   have e1 := ok_inj h1
   obtain ⟨hnews, hall⟩ := flatMap_mapM_inv buildEnumValue (·.values) (mineOf X t.name) r₂ h2
   subst ebt er
-  have := extend_enum_exact env X { kind := .enum, name := t.name, desc := t.desc, values := fs } rfl
+  exact ⟨_, extend_enum_exact eB eX hide X { kind := .enum, name := t.name, desc := t.desc, values := fs } rfl
     (fun e he hne => by rw [hk e he hne, hkk]) (newsOf buildEnumValue (·.values)) hnews
-    (by simp only [] at hn ⊢; rw [h3, ← e1, hall] at hn; exact hn)
-  rw [this, s2, s3, h3, ← e1, hall]
+    (by simp only [] at hn ⊢; rw [h3, ← e1, hall] at hn; exact hn), rfl, hkk.symm⟩
 
-theorem link_union (env : Env) (X : List TypeDef) (t : TypeDef) (bt r : TypeD) (hkk : t.kind = .union)
-    (hb : buildTypeDef env t = .ok bt) (hm : buildTypeDef env (mergeDef X t) = .ok r)
+theorem link_union (eB eX : Env) (hide : Option String) (X : List TypeDef) (t : TypeDef) (bt r : TypeD) (hkk : t.kind = .union)
+    (hb : buildTypeDef eB t = .ok bt) (hm : buildTypeDefX eB eX hide (mergeDef X t) = .ok r)
     (hk : ∀ e ∈ X, e.name = t.name → e.kind = t.kind) (hn : r.members.Nodup) :
-    extendType env X bt = .ok r := by
+    ∃ c, extendTypeX eB eX hide X bt = .ok c ∧ c.name = t.name ∧ c.kind = t.kind := by
   obtain ⟨s1, s2, s3, s4, s5, s6, s7, s8⟩ := mergeDef_spec X t
-  unfold buildTypeDef at hb hm
+  unfold buildTypeDef at hb
+  unfold buildTypeDefX at hm
   rw [s1] at hm
   simp only [hkk] at hb hm
   obtain ⟨_, _, hb2⟩ := bind_ok _ _ _ hb
@@ -296,32 +436,28 @@ theorem link_union (env : Env) (X : List TypeDef) (t : TypeDef) (bt r : TypeD) (
   have ebt := ok_inj hb2
   have er := ok_inj hm2
   rw [s6] at hc
-  have hc2 := checkNames_flatMap_inv env (·.members) _ (checkNames_append_inv env _ _ hc).2
+  have hc2 := checkNames_flatMap_inv eB (·.members) _ (checkNames_append_inv eB _ _ hc).2
   subst ebt er
-  have := extend_union_exact env X { kind := .union, name := t.name, desc := t.desc, members := t.members } rfl
-    (fun e he hne => by rw [hk e he hne, hkk]) hc2 (by simp only [] at hn ⊢; rw [s6] at hn; exact hn)
-  rw [this, s2, s3, s6]
+  exact ⟨_, extend_union_exact eB eX hide X { kind := .union, name := t.name, desc := t.desc, members := t.members } rfl
+    (fun e he hne => by rw [hk e he hne, hkk]) hc2 (by simp only [] at hn ⊢; rw [s6] at hn; exact hn), rfl, hkk.symm⟩
 
-theorem link_scalar (env : Env) (X : List TypeDef) (t : TypeDef) (bt r : TypeD) (hkk : t.kind = .scalar)
-    (hb : buildTypeDef env t = .ok bt) (hm : buildTypeDef env (mergeDef X t) = .ok r)
-    (hk : ∀ e ∈ X, e.name = t.name → e.kind = t.kind) : extendType env X bt = .ok r := by
-  obtain ⟨s1, s2, s3, s4, s5, s6, s7, s8⟩ := mergeDef_spec X t
-  unfold buildTypeDef at hb hm
-  rw [s1] at hm
-  simp only [hkk] at hb hm
+theorem link_scalar (eB eX : Env) (hide : Option String) (X : List TypeDef) (t : TypeDef) (bt : TypeD) (hkk : t.kind = .scalar)
+    (hb : buildTypeDef eB t = .ok bt) (hk : ∀ e ∈ X, e.name = t.name → e.kind = t.kind) :
+    ∃ c, extendTypeX eB eX hide X bt = .ok c ∧ c.name = t.name ∧ c.kind = t.kind := by
+  unfold buildTypeDef at hb
+  simp only [hkk] at hb
   have ebt := ok_inj hb
-  have er := ok_inj hm
-  subst ebt er
-  have := extend_scalar_exact env X { kind := .scalar, name := t.name, desc := t.desc } rfl
-    (fun e he hne => by rw [hk e he hne, hkk])
-  rw [this, s2, s3]
+  subst ebt
+  exact ⟨_, extend_scalar_exact eB eX hide X { kind := .scalar, name := t.name, desc := t.desc } rfl
+    (fun e he hne => by rw [hk e he hne, hkk]), rfl, hkk.symm⟩
 
-theorem link_object (env : Env) (X : List TypeDef) (t : TypeDef) (bt r : TypeD) (hkk : t.kind = .object)
-    (hb : buildTypeDef env t = .ok bt) (hm : buildTypeDef env (mergeDef X t) = .ok r)
+theorem link_object (eB eX : Env) (hide : Option String) (X : List TypeDef) (t : TypeDef) (bt r : TypeD) (hkk : t.kind = .object)
+    (hb : buildTypeDef eB t = .ok bt) (hm : buildTypeDefX eB eX hide (mergeDef X t) = .ok r)
     (hk : ∀ e ∈ X, e.name = t.name → e.kind = t.kind) (hn : (r.fields.map (·.name)).Nodup) (hni : r.interfaces.Nodup) :
-    extendType env X bt = .ok r := by
+    ∃ c, extendTypeX eB eX hide X bt = .ok c ∧ c.name = t.name ∧ c.kind = t.kind := by
   obtain ⟨s1, s2, s3, s4, s5, s6, s7, s8⟩ := mergeDef_spec X t
-  unfold buildTypeDef at hb hm
+  unfold buildTypeDef at hb
+  unfold buildTypeDefX at hm
   rw [s1] at hm
   simp only [hkk] at hb hm
   obtain ⟨fs, hfs, hb1⟩ := bind_ok _ _ _ hb
@@ -331,35 +467,31 @@ theorem link_object (env : Env) (X : List TypeDef) (t : TypeDef) (bt r : TypeD) 
   have ebt := ok_inj hb2
   have er := ok_inj hm2
   rw [s4] at hfs'
-  obtain ⟨r₁, r₂, h1, h2, h3⟩ := mapM_append_inv _ _ _ _ hfs'
-  rw [hfs] at h1
-  have e1 := ok_inj h1
-  obtain ⟨hnews, hall⟩ := flatMap_mapM_inv (buildField env) (·.fields) (mineOf X t.name) r₂ h2
   rw [s5] at hc
-  have hc2 := checkNames_flatMap_inv env (·.interfaces) _ (checkNames_append_inv env _ _ hc).2
+  have hc2 := checkNames_flatMap_inv eB (·.interfaces) _ (checkNames_append_inv eB _ _ hc).2
   subst ebt er
-  have := extend_object_exact env X { kind := .object, name := t.name, desc := t.desc, interfaces := t.interfaces, fields := fs } rfl
-    (fun e he hne => by rw [hk e he hne, hkk]) (newsOf (buildField env) (·.fields)) hnews
-    (by simp only [] at hn ⊢; rw [h3, ← e1, hall] at hn; exact hn) hc2
-    (by simp only [] at hni ⊢; rw [s5] at hni; exact hni)
-  rw [this, s2, s3, s5, h3, ← e1, hall]
+  obtain ⟨hnews, hnd⟩ := link_members (buildField eB) (buildFieldX eB eX hide) (·.name) (·.name) (buildField_name eB) (buildFieldX_name eB eX hide)
+    (·.fields) t.fields (mineOf X t.name) fs fs' hfs hfs' hn
+  exact ⟨_, extend_object_exact eB eX hide X { kind := .object, name := t.name, desc := t.desc, interfaces := t.interfaces, fields := fs } rfl
+    (fun e he hne => by rw [hk e he hne, hkk]) (newsOf (buildFieldX eB eX hide) (·.fields)) hnews hnd hc2
+    (by simp only [] at hni ⊢; rw [s5] at hni; exact hni), rfl, hkk.symm⟩
 
-/-- **The link** (all kinds): if the definition builds and the MERGED definition builds over the same environment,
-    every extension block has the definition's kind and no member name is repeated in the result, then extending
-    the built type with the document's extensions gives exactly the built merged definition. -/
-theorem extend_build_merge (env : Env) (X : List TypeDef) (t : TypeDef) (bt r : TypeD)
-    (hb : buildTypeDef env t = .ok bt) (hm : buildTypeDef env (mergeDef X t) = .ok r)
+/-- **The link** (all kinds): if the definition builds over the un-extended types, the MERGED definition builds with
+    its defaults evaluated in the extended types, every extension block has the definition's kind and no member
+    name is repeated in the result, then the extension step accepts the built type. -/
+theorem extend_accepts_merge (eB eX : Env) (hide : Option String) (X : List TypeDef) (t : TypeDef) (bt r : TypeD)
+    (hb : buildTypeDef eB t = .ok bt) (hm : buildTypeDefX eB eX hide (mergeDef X t) = .ok r)
     (hk : ∀ e ∈ X, e.name = t.name → e.kind = t.kind)
     (hn : (r.fields.map (·.name)).Nodup ∧ (r.inputFields.map (·.name)).Nodup ∧ (r.values.map (·.name)).Nodup ∧
           r.members.Nodup ∧ r.interfaces.Nodup) :
-    extendType env X bt = .ok r := by
+    ∃ c, extendTypeX eB eX hide X bt = .ok c ∧ c.name = t.name ∧ c.kind = t.kind := by
   cases hkk : t.kind with
-  | scalar => exact link_scalar env X t bt r hkk hb hm hk
-  | object => exact link_object env X t bt r hkk hb hm hk hn.1 hn.2.2.2.2
-  | interface => exact link_interface env X t bt r hkk hb hm hk hn.1
-  | union => exact link_union env X t bt r hkk hb hm hk hn.2.2.2.1
-  | enum => exact link_enum env X t bt r hkk hb hm hk hn.2.2.1
-  | input => exact link_input env X t bt r hkk hb hm hk hn.2.1
+  | scalar => rw [← hkk]; exact link_scalar eB eX hide X t bt hkk hb hk
+  | object => rw [← hkk]; exact link_object eB eX hide X t bt r hkk hb hm hk hn.1 hn.2.2.2.2
+  | interface => rw [← hkk]; exact link_interface eB eX hide X t bt r hkk hb hm hk hn.1
+  | union => rw [← hkk]; exact link_union eB eX hide X t bt r hkk hb hm hk hn.2.2.2.1
+  | enum => rw [← hkk]; exact link_enum eB eX hide X t bt r hkk hb hm hk hn.2.2.1
+  | input => rw [← hkk]; exact link_input eB eX hide X t bt r hkk hb hm hk hn.2.1
 
 /-! ### assembling: `build_exact_partial` (documents WITH extensions, finding S8 excluded) -/
 
@@ -429,6 +561,23 @@ theorem buildTypeDef_name (env : Env) (t : TypeDef) (bt : TypeD) (h : buildTypeD
   · obtain ⟨_, _, h1⟩ := bind_ok _ _ _ h
     have := ok_inj h1; subst this; rfl
 
+theorem buildTypeDef_kind (env : Env) (t : TypeDef) (bt : TypeD) (h : buildTypeDef env t = .ok bt) : bt.kind = t.kind := by
+  unfold buildTypeDef at h
+  cases hk : t.kind <;> simp only [hk] at h
+  · have := ok_inj h; subst this; rfl
+  · obtain ⟨_, _, h1⟩ := bind_ok _ _ _ h
+    obtain ⟨_, _, h2⟩ := bind_ok _ _ _ h1
+    have := ok_inj h2; subst this; rfl
+  · obtain ⟨_, _, h1⟩ := bind_ok _ _ _ h
+    have := ok_inj h1; subst this; rfl
+  · obtain ⟨_, _, h1⟩ := bind_ok _ _ _ h
+    have := ok_inj h1; subst this; rfl
+  · obtain ⟨_, _, h1⟩ := bind_ok _ _ _ h
+    obtain ⟨_, _, h2⟩ := bind_ok _ _ _ h1
+    have := ok_inj h2; subst this; rfl
+  · obtain ⟨_, _, h1⟩ := bind_ok _ _ _ h
+    have := ok_inj h1; subst this; rfl
+
 theorem forall₂_names (env : Env) : ∀ (l : List TypeDef) (bs : List TypeD),
     All₂ (fun t bt => buildTypeDef env t = .ok bt) l bs → bs.map (·.name) = l.map (·.name) := by
   intro l bs h
@@ -468,11 +617,51 @@ theorem nodup_map_inj {α} (f : α → String) : ∀ (l : List α), (l.map f).No
     · exact absurd (List.mem_map.mpr ⟨x, hx', hxy⟩) hn.1
     · exact ih hn.2 x hx' y hy' hxy
 
-/-- The rules for a document WITH extensions. `baseBuilds`, `mergedSame` and `directivesSame` are **NoS8**: the
-    definitions build on their own, and every merged definition / directive definition builds to the same thing
-    whether default literals are coerced over the definitions alone (what the builder does) or over the merged
-    definitions (what the specification says) — i.e. no default value refers to a member that only an extension
-    declares. -/
+theorem find_name_of_mem {α} (name : α → String) : ∀ (l : List α), (l.map name).Nodup → ∀ t ∈ l,
+    l.find? (fun x => name x == name t) = some t := by
+  intro l
+  induction l with
+  | nil => intro _ t ht; simp at ht
+  | cons a as ih =>
+    intro hn t ht
+    simp only [List.map_cons, List.nodup_cons] at hn
+    rcases List.mem_cons.mp ht with rfl | ht'
+    · simp
+    · have hne : (name a == name t) = false := by
+        rw [beq_eq_false_iff_ne]
+        intro h
+        exact hn.1 (h ▸ List.mem_map_of_mem ht')
+      rw [List.find?_cons, hne]
+      exact ih hn.2 t ht'
+
+/-- pointwise acceptance ⇒ the whole registry is accepted, with the pointwise facts kept -/
+theorem mapM_link_ex {α β γ} (P : α → β → Prop) (Q : α → γ → Prop) (h : β → R γ) :
+    ∀ (l : List α) (bs : List β), All₂ P l bs → (∀ a b, a ∈ l → P a b → ∃ c, h b = .ok c ∧ Q a c) →
+      ∃ cs, bs.mapM h = .ok cs ∧ All₂ Q l cs := by
+  intro l bs h1
+  induction h1 with
+  | nil => intro _; exact ⟨[], rfl, All₂.nil⟩
+  | @cons a b as bs p _ ih =>
+    intro hl
+    obtain ⟨c, hc, hq⟩ := hl a b (by simp) p
+    obtain ⟨cs, hcs, hqs⟩ := ih (fun a' b' ha' hp' => hl a' b' (by simp [ha']) hp')
+    exact ⟨c :: cs, by rw [List.mapM_cons, hc, hcs]; rfl, All₂.cons hq hqs⟩
+
+theorem buildDirective_name (env : Env) (dd : DirDef) (r : DirectiveD) (h : buildDirective env dd = .ok r) : r.name = dd.name := by
+  unfold buildDirective at h
+  obtain ⟨_, _, h2⟩ := bind_ok _ _ _ h
+  have := ok_inj h2; subst this; rfl
+
+theorem any_map_name {α} (name : α → String) (p : String → Bool) (l : List α) : l.any (fun x => p (name x)) = (l.map name).any p := by
+  induction l with
+  | nil => rfl
+  | cons x xs ih => simp [ih]
+
+/-- The rules for a document WITH extensions. `baseBuilds` / `baseDirectives` are what is left of **NoS8** after fix
+    C14-T15: the definitions and the directive definitions build ON THEIR OWN, i.e. no default value written in a
+    DEFINITION needs a member that only an `extend` block of the same document declares (such a document is still
+    refused by the first pass of `build_schema`; a default written in an extension block may use such members, and
+    every default is evaluated in the extended types). -/
 structure ValidExt (doc : Doc) (d : SchemaD) (bts : List TypeD) : Prop where
   uniqueTypes : ((typeDefs doc).map (·.name)).Nodup
   uniqueDirectives : ((dirDefs doc).map (·.name)).Nodup
@@ -482,9 +671,14 @@ structure ValidExt (doc : Doc) (d : SchemaD) (bts : List TypeD) : Prop where
   extTargets : ∀ e ∈ typeExts doc, ∃ t ∈ typeDefs doc, t.name = e.name ∧ t.kind = e.kind
   declares : Declared doc = some d
   baseBuilds : (typeDefs doc).mapM (buildTypeDef (Env.of (typeDefs doc))) = .ok bts
-  mergedSame : ∀ t ∈ typeDefs doc, buildTypeDef (Env.of (typeDefs doc)) (mergeDef (typeExts doc) t)
-                                  = buildTypeDef (Env.of (merged doc)) (mergeDef (typeExts doc) t)
-  directivesSame : ∀ dd ∈ dirDefs doc, buildDirective (Env.of (typeDefs doc)) dd = buildDirective (Env.of (merged doc)) dd
+  baseDirectives : ∃ bds, (dirDefs doc).mapM (buildDirective (Env.of (typeDefs doc))) = .ok bds
+  /-- the other thing fix C14-T15 leaves: the fields of an input type are extended while the type itself is "in
+      progress", so a default of one of ITS OWN fields which needs the type again is not evaluated in the extended
+      types. Excluded: hiding the type changes nothing (trivially so for the other kinds, `selfDefaults_of_kind`,
+      and for input types without such defaults, `selfDefaults_of_noDefaults`). -/
+  selfDefaults : ¬ ((typeExts doc).isEmpty && (schemaExtensions doc).isEmpty) = true → ∀ t ∈ typeDefs doc,
+      buildTypeDefX (Env.of (typeDefs doc)) ((Env.of (typeDefs doc)).extended (typeExts doc)) (hideFor t.kind t.name) (mergeDef (typeExts doc) t)
+        = buildTypeDefX (Env.of (typeDefs doc)) ((Env.of (typeDefs doc)).extended (typeExts doc)) none (mergeDef (typeExts doc) t)
   /-- no member name is repeated among a definition and its extensions -/
   membersUnique : ∀ r ∈ d.types, (r.fields.map (·.name)).Nodup ∧ (r.inputFields.map (·.name)).Nodup ∧ (r.values.map (·.name)).Nodup ∧
       r.members.Nodup ∧ r.interfaces.Nodup
@@ -497,43 +691,120 @@ structure ValidExt (doc : Doc) (d : SchemaD) (bts : List TypeD) : Prop where
       (schemaExtensions doc).foldlM (fun r se => addOps (fun n => isDefaultName n || d.types.any (·.name == n)) (.lib .ext) r se.ops) r0
         = .ok ⟨d.query, d.mutation, d.subscription⟩
 
-/-- extending the built definitions with the document's extensions gives exactly the built merged definitions
-    (the registry-level form of `extend_build_merge`) -/
+/-- the extension step accepts the built definitions, and what it registers — every type rebuilt from its merged
+    definition with the defaults evaluated in the extended types — is exactly the declared content
+    (the registry-level form of `extend_accepts_merge`) -/
 theorem ext_types (doc : Doc) (d : SchemaD) (bts : List TypeD)
     (uniqueTypes : ((typeDefs doc).map (·.name)).Nodup)
     (extTargets : ∀ e ∈ typeExts doc, ∃ t ∈ typeDefs doc, t.name = e.name ∧ t.kind = e.kind)
     (declares : Declared doc = some d)
     (baseBuilds : (typeDefs doc).mapM (buildTypeDef (Env.of (typeDefs doc))) = .ok bts)
-    (mergedSame : ∀ t ∈ typeDefs doc, buildTypeDef (Env.of (typeDefs doc)) (mergeDef (typeExts doc) t)
-                                    = buildTypeDef (Env.of (merged doc)) (mergeDef (typeExts doc) t))
+    (selfDefaults : ∀ t ∈ typeDefs doc,
+      buildTypeDefX (Env.of (typeDefs doc)) ((Env.of (typeDefs doc)).extended (typeExts doc)) (hideFor t.kind t.name) (mergeDef (typeExts doc) t)
+        = buildTypeDefX (Env.of (typeDefs doc)) ((Env.of (typeDefs doc)).extended (typeExts doc)) none (mergeDef (typeExts doc) t))
     (membersUnique : ∀ r ∈ d.types, (r.fields.map (·.name)).Nodup ∧ (r.inputFields.map (·.name)).Nodup ∧ (r.values.map (·.name)).Nodup ∧
       r.members.Nodup ∧ r.interfaces.Nodup) :
-    bts.mapM (extendType (Env.of (typeDefs doc)) (typeExts doc)) = .ok d.types := by
+    ∃ cs, bts.mapM (fun t => extendTypeX (Env.of (typeDefs doc)) ((Env.of (typeDefs doc)).extended (typeExts doc)) (hideFor t.kind t.name)
+        (typeExts doc) t) = .ok cs ∧
+      cs.mapM (fun t => reDefault (Env.of (typeDefs doc)) ((Env.of (typeDefs doc)).extended (typeExts doc)) (hideFor t.kind t.name)
+        (typeExts doc) t) = .ok d.types := by
   obtain ⟨hts, _, _⟩ := declared_parts doc d declares
+  have hres := extended_resolves (Env.of (typeDefs doc)) (typeExts doc)
+  have hX : (Env.of (typeDefs doc)).extended (typeExts doc) = Env.of (merged doc) := extended_eq _ _
   have hP := mapM_forall₂ _ _ _ baseBuilds
-  have hQ : All₂ (fun t r => buildTypeDef (Env.of (typeDefs doc)) (mergeDef (typeExts doc) t) = .ok r) (typeDefs doc) d.types := by
-    have h1 : (typeDefs doc).mapM (fun t => buildTypeDef (Env.of (typeDefs doc)) (mergeDef (typeExts doc) t)) = .ok d.types := by
-      rw [mapM_congr_mem _ (fun t => buildTypeDef (Env.of (merged doc)) (mergeDef (typeExts doc) t)) _ mergedSame]
-      rw [← mapM_map_eq]; exact hts
+  -- the merged definitions, defaults evaluated in the extended types
+  have hQ : All₂ (fun t r => buildTypeDefX (Env.of (typeDefs doc)) ((Env.of (typeDefs doc)).extended (typeExts doc)) (hideFor t.kind t.name)
+      (mergeDef (typeExts doc) t) = .ok r) (typeDefs doc) d.types := by
+    have h1 : (typeDefs doc).mapM (fun t => buildTypeDefX (Env.of (typeDefs doc)) ((Env.of (typeDefs doc)).extended (typeExts doc)) (hideFor t.kind t.name)
+        (mergeDef (typeExts doc) t)) = .ok d.types := by
+      rw [mapM_congr_mem _ _ _ selfDefaults, ← mapM_map_eq]
+      refine mapM_of_ok _ _ (buildTypeDefX_of_ok _ _ hres) _ _ ?_
+      rw [hX]; exact hts
     exact mapM_forall₂ _ _ _ h1
-  refine mapM_link _ _ _ _ _ _ hP hQ ?_
-  intro t bt r ht hr hb hm
-  refine extend_build_merge _ _ t bt r hb hm ?_ (membersUnique r hr)
-  intro e he hne
-  obtain ⟨t', ht', hn', hk'⟩ := extTargets e he
-  have : t' = t := nodup_map_inj (·.name) _ uniqueTypes t' ht' t ht (hn'.trans hne)
-  rw [← hk', this]
+  -- the pointwise facts: P t bt (built), Q t r (declared)
+  have hPQ : All₂ (fun t (br : TypeD × TypeD) => buildTypeDef (Env.of (typeDefs doc)) t = .ok br.1 ∧
+      buildTypeDefX (Env.of (typeDefs doc)) ((Env.of (typeDefs doc)).extended (typeExts doc)) (hideFor t.kind t.name) (mergeDef (typeExts doc) t) = .ok br.2 ∧
+      br.2 ∈ d.types) (typeDefs doc) (bts.zip d.types) := by
+    have : ∀ (l : List TypeDef) (bs rs : List TypeD) (sub : ∀ r ∈ rs, r ∈ d.types),
+        All₂ (fun t bt => buildTypeDef (Env.of (typeDefs doc)) t = .ok bt) l bs →
+        All₂ (fun t r => buildTypeDefX (Env.of (typeDefs doc)) ((Env.of (typeDefs doc)).extended (typeExts doc)) (hideFor t.kind t.name) (mergeDef (typeExts doc) t) = .ok r) l rs →
+        All₂ (fun t (br : TypeD × TypeD) => buildTypeDef (Env.of (typeDefs doc)) t = .ok br.1 ∧
+          buildTypeDefX (Env.of (typeDefs doc)) ((Env.of (typeDefs doc)).extended (typeExts doc)) (hideFor t.kind t.name) (mergeDef (typeExts doc) t) = .ok br.2 ∧
+          br.2 ∈ d.types) l (bs.zip rs) := by
+      intro l bs rs sub h1
+      induction h1 generalizing rs with
+      | nil => intro h2; cases h2; exact All₂.nil
+      | cons p _ ih =>
+        intro h2
+        cases h2 with
+        | cons q t2 => exact All₂.cons ⟨p, q, sub _ (by simp)⟩ (ih _ (fun r hr => sub r (by simp [hr])) t2)
+    exact this _ _ _ (fun _ h => h) hP hQ
+  -- step 1: the extension step accepts every built definition
+  have hacc : ∃ cs, bts.mapM (fun t => extendTypeX (Env.of (typeDefs doc)) ((Env.of (typeDefs doc)).extended (typeExts doc)) (hideFor t.kind t.name)
+        (typeExts doc) t) = .ok cs ∧
+      All₂ (fun t (c : TypeD) => c.name = t.name ∧ c.kind = t.kind) (typeDefs doc) cs := by
+    have hzip : ∀ (l : List TypeDef) (bs rs : List TypeD) (P : TypeDef → TypeD × TypeD → Prop), All₂ P l (bs.zip rs) →
+        All₂ (fun t bt => ∃ r, P t (bt, r)) l (bs.take (bs.zip rs).length) := by
+      intro l bs rs P h
+      induction l generalizing bs rs with
+      | nil => cases bs <;> cases rs <;> simp at h ⊢ <;> first | exact All₂.nil | (cases h)
+      | cons a as ih =>
+        cases bs with
+        | nil => simp at h; cases h
+        | cons b bs' =>
+          cases rs with
+          | nil => simp at h; cases h
+          | cons r rs' =>
+            simp only [List.zip_cons_cons, List.length_cons, List.take_succ_cons] at h ⊢
+            cases h with
+            | cons p t => exact All₂.cons ⟨r, p⟩ (ih _ _ t)
+    have hlen : (bts.zip d.types).length = bts.length := by
+      have l1 : ∀ (l : List TypeDef) (bs : List TypeD) (P : TypeDef → TypeD → Prop), All₂ P l bs → bs.length = l.length := by
+        intro l bs P h; induction h with | nil => rfl | cons _ _ ih => simp [ih]
+      rw [List.length_zip, l1 _ _ _ hP, l1 _ _ _ hQ]; simp
+    have h3 := hzip _ _ _ _ hPQ
+    rw [hlen, List.take_length] at h3
+    refine mapM_link_ex _ _ _ _ _ h3 ?_
+    intro t bt ht ⟨r, hb, hm, hr⟩
+    obtain ⟨hbn, hbk⟩ : bt.name = t.name ∧ bt.kind = t.kind := ⟨buildTypeDef_name _ _ _ hb, buildTypeDef_kind _ _ _ hb⟩
+    show ∃ c, extendTypeX _ _ (hideFor bt.kind bt.name) _ bt = .ok c ∧ _
+    rw [hbn, hbk]
+    refine extend_accepts_merge _ _ _ _ t bt r hb hm ?_ (membersUnique r hr)
+    intro e he hne
+    obtain ⟨t', ht', hn', hk'⟩ := extTargets e he
+    have : t' = t := nodup_map_inj (·.name) _ uniqueTypes t' ht' t ht (hn'.trans hne)
+    rw [← hk', this]
+  obtain ⟨cs, hcs, hnames⟩ := hacc
+  refine ⟨cs, hcs, ?_⟩
+  -- step 2: every type is rebuilt from its merged definition
+  refine mapM_link _ _ _ _ _ _ hnames hQ ?_
+  intro t c r ht _ hc hm
+  show reDefault _ _ (hideFor c.kind c.name) _ c = .ok r
+  unfold reDefault
+  have hfa : (Env.of (typeDefs doc)).findAdditional c.name = none := by simp [Env.of]
+  have hfd : (Env.of (typeDefs doc)).findDef c.name = some t := by
+    rw [hc.1]; exact find_name_of_mem (·.name) _ uniqueTypes t ht
+  rw [hfa, hfd, hc.1, hc.2]
+  exact hm
 
-/-- **build_exact_partial**: a valid document WITH extensions in which no default value depends on an
-    extension-declared member (finding S8 excluded) builds, and the schema is exactly the declared content: every
-    extension merged into its target in document order. -/
+/-- **build_exact_partial**: a valid document WITH extensions whose DEFINITIONS build on their own (what is left of
+    finding S8) builds, and the schema is exactly the declared content: every extension merged into its target in
+    document order, every default value evaluated in the extended types. -/
 theorem build_exact_partial (doc : Doc) (d : SchemaD) (bts : List TypeD) (v : ValidExt doc d bts) : build doc = .ok d := by
   obtain ⟨c, hc, hct, hcd, hcs⟩ := collect_ok doc v.uniqueTypes v.uniqueDirectives v.oneSchema v.noBuiltinNames
   obtain ⟨hts, hds, hd⟩ := declared_parts doc d v.declares
   obtain ⟨r0, hr0, hrx⟩ := v.rootsOk
-  -- directive definitions
-  have hdirs : (dirDefs doc).mapM (buildDirective (Env.of (typeDefs doc))) = .ok d.directives := by
-    rw [mapM_congr_mem _ _ _ v.directivesSame]; exact hds
+  obtain ⟨bds, hdirs⟩ := v.baseDirectives
+  have hres := extended_resolves (Env.of (typeDefs doc)) (typeExts doc)
+  have hX : (Env.of (typeDefs doc)).extended (typeExts doc) = Env.of (merged doc) := extended_eq _ _
+  -- names of the built directive definitions
+  have hbdn : bds.map (·.name) = (dirDefs doc).map (·.name) := mapM_names _ (·.name) (·.name) (buildDirective_name _) _ _ hdirs
+  have hddn : d.directives.map (·.name) = (dirDefs doc).map (·.name) := mapM_names _ (·.name) (·.name) (buildDirective_name _) _ _ hds
+  have hspec0 : bds.any (fun x => specifiedDirectives.contains x.name) = false := by
+    have h0 := v.noSpecified
+    have e1 := any_map_name (fun x : DirectiveD => x.name) (fun n => specifiedDirectives.contains n) d.directives
+    have e2 := any_map_name (fun x : DirectiveD => x.name) (fun n => specifiedDirectives.contains n) bds
+    rw [e2, hbdn, ← hddn, ← e1]; exact h0
   -- the definitions alone
   have hbt := mapM_buildType (typeDefs doc) (typeDefs doc) bts v.noBuiltinNames v.baseBuilds
   have hP := mapM_forall₂ _ _ _ v.baseBuilds
@@ -548,42 +819,41 @@ theorem build_exact_partial (doc : Doc) (d : SchemaD) (bts : List TypeD) (v : Va
     have : e.name ∈ bts.map (·.name) := by rw [hnames, ← hn]; exact List.mem_map_of_mem ht
     obtain ⟨bt, hbt1, hbt2⟩ := List.mem_map.mp this
     exact ⟨bt, hbt1, by simp [hbt2]⟩
-  -- the merged definitions, over the builder's environment
-  have hQ : All₂ (fun t r => buildTypeDef (Env.of (typeDefs doc)) (mergeDef (typeExts doc) t) = .ok r) (typeDefs doc) d.types := by
-    have h1 : (typeDefs doc).mapM (fun t => buildTypeDef (Env.of (typeDefs doc)) (mergeDef (typeExts doc) t)) = .ok d.types := by
-      rw [mapM_congr_mem _ (fun t => buildTypeDef (Env.of (merged doc)) (mergeDef (typeExts doc) t)) _ v.mergedSame]
-      rw [← mapM_map_eq]; exact hts
-    exact mapM_forall₂ _ _ _ h1
-  have hext : bts.mapM (extendType (Env.of (typeDefs doc)) (typeExts doc)) = .ok d.types := by
-    refine mapM_link _ _ _ _ _ _ hP hQ ?_
-    intro t bt r ht hr hb hm
-    refine extend_build_merge _ _ t bt r hb hm ?_ (v.membersUnique r hr)
-    intro e he hne
-    obtain ⟨t', ht', hn', hk'⟩ := v.extTargets e he
-    have : t' = t := nodup_map_inj (·.name) _ v.uniqueTypes t' ht' t ht (hn'.trans hne)
-    rw [← hk', this]
+  -- directive definitions: argument defaults evaluated in the extended types
+  have hdx : bds.mapM (reDefaultDirective (Env.of (typeDefs doc)) ((Env.of (typeDefs doc)).extended (typeExts doc)) doc) = .ok d.directives := by
+    have hB := mapM_forall₂ _ _ _ hdirs
+    have hD := mapM_forall₂ _ _ _ hds
+    refine mapM_link _ _ _ _ _ _ hB hD ?_
+    intro dd bd r hdd _ hb hm
+    unfold reDefaultDirective
+    have hf : (directiveDefs doc).find? (·.name == bd.name) = some dd := by
+      rw [buildDirective_name _ _ _ hb]; exact find_name_of_mem (·.name) _ v.uniqueDirectives dd hdd
+    rw [hf]
+    refine buildDirectiveX_of_ok _ _ hres dd r ?_
+    rw [hX]; exact hm
   have hthunk := v.noThunkCycle
   have hcyc0 := v.noEagerCycleBase
   have hcyc := v.noEagerCycle
-  have hspec := v.noSpecified
   simp only [build, buildIgnoringExtensions, hc, bind, Except.bind, buildCollected, failIf, hct, hcd, hcs, hthunk, hdirs, hbt,
-    filterMap_id_map_some, hcyc0, hr0, hspec, Bool.false_eq_true, if_false, pure, Except.pure, referencedAdditional,
+    filterMap_id_map_some, hcyc0, hr0, hspec0, Bool.false_eq_true, if_false, pure, Except.pure, referencedAdditional,
     List.filter_nil, List.append_nil, extendSchema]
   rw [htexts _ rfl]
   by_cases hE : ((typeExts doc).isEmpty && (schemaExtensions doc).isEmpty) = true
   · -- no extension at all: the early return of extend_schema
     simp only [hE, if_true, toSchemaD]
     simp only [Bool.and_eq_true, List.isEmpty_iff] at hE
-    have hX := hE.1
+    have hXn := hE.1
     have hS := hE.2
     rw [hS] at hrx
     simp only [List.foldlM_nil, pure, Except.pure] at hrx
     have er := ok_inj hrx
-    have hm := merged_noext doc hX
-    rw [hm] at hts
+    have hm := merged_noext doc hXn
+    rw [hm] at hts hds
     rw [v.baseBuilds] at hts
+    rw [hdirs] at hds
     have eb := ok_inj hts
-    rw [eb, er]
+    have ed := ok_inj hds
+    rw [eb, er, ed]
     exact congrArg Except.ok hd.symm
   · -- no extension targets a specified type: every target is a definition of the document
     have hkind : (typeExts doc).any (fun e => isDefaultName e.name && e.kind != builtinKind e.name) = false := by
@@ -593,25 +863,26 @@ theorem build_exact_partial (doc : Doc) (d : SchemaD) (bts : List TypeD) (v : Va
       have := v.noBuiltinNames t ht
       rw [hn] at this
       simp [this]
-    simp only [hE, Bool.false_eq_true, if_false, hkind, hext, hcyc, hrx, toSchemaD]
+    obtain ⟨cs, hchk, hext⟩ := ext_types doc d bts v.uniqueTypes v.extTargets v.declares v.baseBuilds (v.selfDefaults hE) v.membersUnique
+    simp only [hE, Bool.false_eq_true, if_false, hkind, hchk, hext, hdx, hcyc, hrx, toSchemaD]
     exact congrArg Except.ok hd.symm
 
 /-- non-vacuity of `ValidExt`: every extension-free valid document (e.g. `exDoc` of `C11_exact.lean`) whose members
-    have unique names satisfies it; the S8-free generated documents of the correspondence are the instances with
-    extensions (the hypotheses `mergedSame`/`directivesSame` are exactly what the check's S8 classification tests). -/
+    have unique names satisfies it; the generated documents of the correspondence are the instances with
+    extensions (`baseBuilds`/`baseDirectives` are exactly what the check's S8 classification tests). -/
 theorem validExt_of_noext (doc : Doc) (d : SchemaD) (v : ValidNoExt doc d)
     (hu : ∀ r ∈ d.types, (r.fields.map (·.name)).Nodup ∧ (r.inputFields.map (·.name)).Nodup ∧ (r.values.map (·.name)).Nodup ∧
       r.members.Nodup ∧ r.interfaces.Nodup) : ValidExt doc d d.types := by
   have hm := merged_noext doc v.noTypeExt
   obtain ⟨hts, hds, _⟩ := declared_parts doc d v.declares
-  rw [hm] at hts
+  rw [hm] at hts hds
   exact
     { uniqueTypes := v.uniqueTypes, uniqueDirectives := v.uniqueDirectives, oneSchema := v.oneSchema,
       noBuiltinNames := v.noBuiltinNames,
       extTargets := by intro e he; rw [v.noTypeExt] at he; simp at he,
       declares := v.declares, baseBuilds := hts,
-      mergedSame := by intro t _; rw [hm],
-      directivesSame := by intro dd _; rw [hm],
+      baseDirectives := ⟨_, hds⟩,
+      selfDefaults := by intro h; exact absurd (by simp [v.noTypeExt, v.noSchemaExt]) h,
       membersUnique := hu, noThunkCycle := v.noThunkCycle, noEagerCycleBase := v.noEagerCycle, noEagerCycle := v.noEagerCycle,
       noSpecified := v.noSpecified,
       rootsOk := ⟨_, v.rootsOk, by rw [v.noSchemaExt]; rfl⟩ }
